@@ -93,6 +93,18 @@ def run(chk):
         if st != "ok":
             continue
         F0 = [list(map(int, f)) for f in p0.faces]
+        if ishape % 3 == 0:
+            # a copy of the solid (deepcopy / pickle) carries its own structure: resizing one leaves the other's planes on its faces
+            def structure_(s_):
+                eq_ = np.asarray(s_.equations, float)
+                res_ = max(float(np.max(np.abs(np.asarray(s_.vertices, float)[list(f)] @ eq_[i, :3] + eq_[i, 3]))) for i, f in enumerate(s_.faces))
+                return dict(equations=eq_, normals=s_.normals, faces=np.concatenate([np.r_[len(f), f] for f in s_.faces]),
+                            neighbors=np.concatenate([np.r_[len(n), n] for n in s_.neighbors]), edges=s_.edges, plane_residual=[res_])
+            for cls_, mk_ in (("ConvexPolyhedron", lambda: coxeter.shapes.ConvexPolyhedron(np.array(V, float))),
+                              ("Polyhedron", lambda: coxeter.shapes.Polyhedron(np.array(p0.vertices, float), [list(f) for f in F0]))):
+                for prob in C.copy_probe(mk_, structure_)[:1]:
+                    chk.violation("copy-shares-structure", dict(kind=kind, cls=cls_, vertices=np.asarray(V).tolist(), what=prob))
+                chk.count("copy-probe")
         perm = rng.permutation(len(V))          # relabel: new index of old vertex i is inv[i]
         inv = np.argsort(perm)
         Vr = np.array(p0.vertices)[perm]
